@@ -115,7 +115,7 @@ def execute(G, c):
 def run(rep, tier):
     G = drivers.load()
     rep.rule = ("Hypothesis replies: 0..6 varbinds, any mix of data values / NULL / noSuchObject / noSuchInstance / endOfMibView, "
-                "duplicate OIDs, v3 Report instead of response, no reply; x get/get_many x v1/v2c/v3(all levels) x nb/sync/async. "
+                "duplicate OIDs, v3 Report instead of response, no reply, optionally after a warm-up exchange that leaves large boots/time; x get/get_many x v1/v2c/v3(all levels) x nb/sync/async. "
                 "Non-trivial = reply mixes >=2 value kinds, or is the Report / empty / multi-varbind / silent case; distinct by "
                 "(cfg, op, kind, names, value TLVs).")
 
